@@ -41,6 +41,19 @@ pub fn hm_push(m: &mut HashMap<SpanId, Vec<DanglingItem>>, k: SpanId, item: Dang
     ensures dmap_of(*final(m)) == dm_park(dmap_of(*old(m)), k, dang_view(item)),
 { m.entry(k).or_default().push(item) }
 
+// R4: M.entry(K).or_default().extend(V) for V: Vec<DanglingItem>
+#[verifier::external_body]
+pub fn hm_extend(m: &mut HashMap<SpanId, Vec<DanglingItem>>, k: SpanId, items: Vec<DanglingItem>)
+    ensures dmap_of(*final(m)) == dm_extend(dmap_of(*old(m)), k, dangs_view(items@)),
+{ m.entry(k).or_default().extend(items) }
+
+// R22: `for (K, V) in M` consuming a HashMap visits every key exactly once in an order nothing is
+// known about: the loop runs over a snapshot of the keys and takes each entry out with M.remove(k)
+#[verifier::external_body]
+pub fn hm_keys_d(m: &HashMap<SpanId, Vec<DanglingItem>>) -> (r: Vec<SpanId>)
+    ensures r@.no_duplicates(), r@.to_set() == m@.dom(),
+{ m.keys().copied().collect() }
+
 // ---------------------------------------------------------------------------
 // Specification functions (definitions; the oracle).  Written from the
 // property statements:
@@ -160,6 +173,127 @@ pub open spec fn dm_get(d: DMap, k: SpanId) -> Seq<DangV> {
 
 pub open spec fn dm_park(d: DMap, k: SpanId, item: DangV) -> DMap {
     d.insert(k, dm_get(d, k).push(item))
+}
+
+pub open spec fn dm_extend(d: DMap, k: SpanId, items: Seq<DangV>) -> DMap {
+    d.insert(k, dm_get(d, k) + items)
+}
+
+// what is parked for spans outside a local set (l) joins what is already parked (d), per key, behind it
+pub open spec fn dm_merge(d: DMap, l: DMap) -> DMap {
+    Map::new(d.dom() + l.dom(), |k: SpanId| dm_get(d, k) + dm_get(l, k))
+}
+
+// the same, one key of l at a time in the order ks (the order a HashMap happens to iterate in)
+pub open spec fn merge_seq(d: DMap, l: DMap, ks: Seq<SpanId>) -> DMap
+    decreases ks.len(),
+{
+    if ks.len() == 0 { d } else { dm_extend(merge_seq(d, l, ks.drop_last()), ks.last(), l[ks.last()]) }
+}
+
+pub proof fn lemma_merge_seq(d: DMap, l: DMap, ks: Seq<SpanId>)
+    requires ks.no_duplicates(), forall|i: int| 0 <= i < ks.len() ==> l.contains_key(#[trigger] ks[i]),
+    ensures
+        merge_seq(d, l, ks).dom() =~= d.dom() + ks.to_set(),
+        forall|k: SpanId| #[trigger] merge_seq(d, l, ks).contains_key(k) ==>
+            merge_seq(d, l, ks)[k] == dm_get(d, k) + (if ks.contains(k) { l[k] } else { Seq::<DangV>::empty() }),
+    decreases ks.len(),
+{
+    if ks.len() == 0 {
+        assert(ks.to_set() =~= Set::<SpanId>::empty());
+        assert forall|k: SpanId| #[trigger] d.contains_key(k) implies d[k] == dm_get(d, k) + Seq::<DangV>::empty() by {
+            assert(d[k] + Seq::<DangV>::empty() =~= d[k]);
+        }
+    } else {
+        let kl = ks.drop_last();
+        let x = ks.last();
+        assert(kl.no_duplicates());
+        assert forall|i: int| 0 <= i < kl.len() implies l.contains_key(#[trigger] kl[i]) by { assert(kl[i] == ks[i]); }
+        lemma_merge_seq(d, l, kl);
+        let m0 = merge_seq(d, l, kl);
+        assert(!kl.contains(x)) by {
+            if kl.contains(x) {
+                let i = choose|i: int| 0 <= i < kl.len() && kl[i] == x;
+                assert(ks[i] == x && ks[ks.len() - 1] == x);
+            }
+        }
+        assert forall|k: SpanId| ks.contains(k) <==> (kl.contains(k) || k == x) by {
+            if ks.contains(k) {
+                let i = choose|i: int| 0 <= i < ks.len() && ks[i] == k;
+                if i < ks.len() - 1 { assert(kl[i] == k); }
+            }
+            if kl.contains(k) {
+                let i = choose|i: int| 0 <= i < kl.len() && kl[i] == k;
+                assert(ks[i] == k);
+            }
+            if k == x { assert(ks[ks.len() - 1] == k); }
+        }
+        assert(ks.to_set() =~= kl.to_set().insert(x));
+        assert forall|k: SpanId| #[trigger] merge_seq(d, l, ks).contains_key(k) implies
+            merge_seq(d, l, ks)[k] == dm_get(d, k) + (if ks.contains(k) { l[k] } else { Seq::<DangV>::empty() }) by {
+            if k == x {
+                if m0.contains_key(x) {
+                    assert(m0[x] == dm_get(d, x) + Seq::<DangV>::empty());
+                    assert((dm_get(d, x) + Seq::<DangV>::empty()) + l[x] =~= dm_get(d, x) + l[x]);
+                } else {
+                    assert(!d.contains_key(x));
+                    assert(Seq::<DangV>::empty() + l[x] =~= l[x]);
+                    assert(dm_get(d, x) + l[x] =~= l[x]);
+                }
+            }
+        }
+    }
+}
+
+pub proof fn lemma_push_set(s: Seq<SpanId>)
+    requires s.len() > 0,
+    ensures s.to_set() =~= s.drop_last().to_set().insert(s.last()),
+{
+    let kl = s.drop_last();
+    let x = s.last();
+    assert forall|k: SpanId| s.contains(k) <==> (kl.contains(k) || k == x) by {
+        if s.contains(k) {
+            let i = choose|i: int| 0 <= i < s.len() && s[i] == k;
+            if i < s.len() - 1 { assert(kl[i] == k); }
+        }
+        if kl.contains(k) {
+            let i = choose|i: int| 0 <= i < kl.len() && kl[i] == k;
+            assert(s[i] == k);
+        }
+        if k == x { assert(s[s.len() - 1] == k); }
+    }
+}
+
+pub proof fn lemma_take_set(ks: Seq<SpanId>, i: int)
+    requires 0 <= i < ks.len(), ks.no_duplicates(),
+    ensures
+        ks.take(i + 1).to_set() =~= ks.take(i).to_set().insert(ks[i]),
+        !ks.take(i).to_set().contains(ks[i]),
+{
+    let t = ks.take(i + 1);
+    assert(t.drop_last() =~= ks.take(i));
+    assert(t.last() == ks[i]);
+    lemma_push_set(t);
+    if ks.take(i).contains(ks[i]) {
+        let j = choose|j: int| 0 <= j < ks.take(i).len() && ks.take(i)[j] == ks[i];
+        assert(ks[j] == ks[i]);
+    }
+}
+
+pub proof fn lemma_merge_all(d: DMap, l: DMap, ks: Seq<SpanId>)
+    requires ks.no_duplicates(), ks.to_set() =~= l.dom(),
+    ensures merge_seq(d, l, ks) =~= dm_merge(d, l),
+{
+    assert forall|i: int| 0 <= i < ks.len() implies l.contains_key(#[trigger] ks[i]) by {
+        assert(ks.to_set().contains(ks[i]));
+    }
+    lemma_merge_seq(d, l, ks);
+    assert forall|k: SpanId| #[trigger] dm_merge(d, l).contains_key(k) implies merge_seq(d, l, ks)[k] == dm_merge(d, l)[k] by {
+        if l.contains_key(k) { assert(ks.to_set().contains(k)); } else {
+            assert(!ks.to_set().contains(k));
+            assert(dm_get(d, k) + Seq::<DangV>::empty() =~= dm_get(d, k) + dm_get(l, k));
+        }
+    }
 }
 
 // ---- one thread-safe span (SpanSet::Span) delivered under (trace_id, parent_id)
@@ -294,6 +428,18 @@ pub proof fn lemma_mount_split(a: Seq<RecV>, b: Seq<RecV>, d: DMap)
     }
 }
 
+// ---- a captured local set delivered under (trace_id, parent_id): its events and late properties
+// are attached to the set's own spans first (so that two copies of one set in the same trace, which
+// carry the same span ids, cannot take each other's attachments -- C17); only what is addressed to a
+// span outside the set (the parent the set is delivered under) is left to be parked with the batch
+pub open spec fn local_recs(spans: Seq<RawSpan>, end_time: Instant, trace_id: TraceId, parent_id: SpanId, anchor: Anchor) -> Seq<RecV> {
+    mount_recs(amend_local_recs(spans, end_time, trace_id, parent_id, anchor), amend_local_dm(spans, parent_id, Map::empty(), anchor))
+}
+
+pub open spec fn local_left(spans: Seq<RawSpan>, end_time: Instant, trace_id: TraceId, parent_id: SpanId, anchor: Anchor) -> DMap {
+    mount_dm(amend_local_recs(spans, end_time, trace_id, parent_id, anchor), amend_local_dm(spans, parent_id, Map::empty(), anchor))
+}
+
 // ---- a batch of span collections processed into one danglings map, then mounted
 pub open spec fn sc_set(c: SpanCollection) -> SpanSet {
     match c {
@@ -319,16 +465,16 @@ pub open spec fn sc_parent(c: SpanCollection) -> SpanId {
 pub open spec fn set_recs(set: SpanSet, trace_id: TraceId, parent_id: SpanId, anchor: Anchor) -> Seq<RecV> {
     match set {
         SpanSet::Span(raw) => amend_span_recs(raw, trace_id, parent_id, anchor),
-        SpanSet::LocalSpansInner(ls) => amend_local_recs(ls.spans@, ls.end_time, trace_id, parent_id, anchor),
-        SpanSet::SharedLocalSpans(ls) => amend_local_recs(ls.spans@, ls.end_time, trace_id, parent_id, anchor),
+        SpanSet::LocalSpansInner(ls) => local_recs(ls.spans@, ls.end_time, trace_id, parent_id, anchor),
+        SpanSet::SharedLocalSpans(ls) => local_recs(ls.spans@, ls.end_time, trace_id, parent_id, anchor),
     }
 }
 
-pub open spec fn set_dm(set: SpanSet, parent_id: SpanId, d: DMap, anchor: Anchor) -> DMap {
+pub open spec fn set_dm(set: SpanSet, trace_id: TraceId, parent_id: SpanId, d: DMap, anchor: Anchor) -> DMap {
     match set {
         SpanSet::Span(raw) => amend_span_dm(raw, parent_id, d, anchor),
-        SpanSet::LocalSpansInner(ls) => amend_local_dm(ls.spans@, parent_id, d, anchor),
-        SpanSet::SharedLocalSpans(ls) => amend_local_dm(ls.spans@, parent_id, d, anchor),
+        SpanSet::LocalSpansInner(ls) => dm_merge(d, local_left(ls.spans@, ls.end_time, trace_id, parent_id, anchor)),
+        SpanSet::SharedLocalSpans(ls) => dm_merge(d, local_left(ls.spans@, ls.end_time, trace_id, parent_id, anchor)),
     }
 }
 
@@ -355,7 +501,7 @@ pub open spec fn colls_dm(cs: Seq<CollV>, d: DMap, anchor: Anchor) -> DMap
     decreases cs.len(),
 {
     if cs.len() == 0 { d } else {
-        set_dm(cs.last().set, cs.last().parent_id, colls_dm(cs.drop_last(), d, anchor), anchor)
+        set_dm(cs.last().set, cs.last().trace_id, cs.last().parent_id, colls_dm(cs.drop_last(), d, anchor), anchor)
     }
 }
 
